@@ -30,6 +30,13 @@ Edit ops (value v, bit length L resp. 8*len for octet strings):
   swap j   the value of the j-th following field of the same type in the same file
   set k    the constant k (octet strings: that constant at the field's length; -1 = all ones)
   pad0 k   same value, encoded with k redundant leading zero octets
+  sign k   the SIGN BOUNDARY of the encoding (values are kept as magnitudes and re-encoded canonically by every other
+           op, so no other op ever produces an integer whose first octet has its top bit set): form k mod 4 of
+           SIGN_FORMS - "msb": the magnitude octets with the top bit of the first octet set and no sign octet (for a
+           magnitude whose top bit is set already this is "sign octet dropped": same bits, negative under two's
+           complement); "ff-pad": 0xff put in front of the canonical encoding; "negate": the canonical two's complement
+           encoding of -v; "ff-for-pad": the magnitude octets behind a 0xff sign octet. Octet strings: top bit of the
+           first octet set / 0xff prepended / two's complement at the same length / first octet replaced by 0xff.
 """
 import hashlib
 
@@ -43,7 +50,8 @@ except ImportError:  # pragma: no cover
     TripleDES = algorithms.TripleDES
 
 MAGIC = b"openssh-key-v1\x00"
-OPS = ["flip", "delta", "other", "swap", "set", "pad0"]
+OPS = ["flip", "delta", "other", "swap", "set", "pad0", "sign"]
+SIGN_FORMS = ["msb", "ff-pad", "negate", "ff-for-pad"]
 MAX_KDF_ROUNDS = 64
 
 
@@ -393,6 +401,16 @@ def _edit_value(typ, v, op, arg):
             return arg
         if op == "pad0":
             return Raw(b"\x00" * (1 + arg % 4) + (R.mpint_body(v) or b"\x00"))
+        if op == "sign" and v >= 0:
+            form = SIGN_FORMS[arg % len(SIGN_FORMS)]
+            mag = v.to_bytes(max(1, (v.bit_length() + 7) // 8), "big")  # no sign octet
+            if form == "msb":
+                return Raw(bytes([mag[0] | 0x80]) + mag[1:])
+            if form == "ff-pad":
+                return Raw(b"\xff" + (R.mpint_body(v) or b"\x00"))
+            if form == "negate":
+                return Raw(R.mpint_body(-v)) if v else None
+            return Raw(b"\xff" + mag)
     else:
         n = len(v)
         if op == "pad0":
@@ -400,6 +418,15 @@ def _edit_value(typ, v, op, arg):
         if n == 0:
             return None
         x = int.from_bytes(v, "big")
+        if op == "sign":
+            form = SIGN_FORMS[arg % len(SIGN_FORMS)]
+            if form == "msb":
+                return bytes([v[0] | 0x80]) + v[1:]
+            if form == "ff-pad":
+                return b"\xff" + v
+            if form == "negate":
+                return ((-x) % (1 << (8 * n))).to_bytes(n, "big")
+            return b"\xff" + v[1:]
         if op == "flip":
             x ^= 1 << (arg % (8 * n))
         elif op == "delta":
@@ -447,12 +474,12 @@ def base_edits(view, name):
     typ = view.types[name]
     L = _bits(typ, view.values[view.groups.get(name, [name])[0]])
     if name in view.groups or name.startswith("pub:"):
-        return [("flip", 1), ("flip", L // 2), ("delta", 1), ("other", 0)]
+        return [("flip", 1), ("flip", L // 2), ("delta", 1), ("other", 0), ("sign", 0), ("sign", 2)]
     flips = []
     for b in (0, 1, L // 2, L - 2, L - 1):
         if 0 <= b < L and b not in flips:
             flips.append(b)
-    return [("flip", b) for b in flips] + [("delta", -1), ("delta", 1), ("delta", 2), ("other", 0), ("swap", 0), ("set", 0), ("set", 1), ("pad0", 0)]
+    return [("flip", b) for b in flips] + [("delta", -1), ("delta", 1), ("delta", 2), ("other", 0), ("swap", 0), ("set", 0), ("set", 1), ("pad0", 0)] + [("sign", k) for k in range(len(SIGN_FORMS))]
 
 
 def all_flips(view, name):
